@@ -171,8 +171,17 @@ func Generated[C any](t *testing.T, s Spec[C]) {
 			SaveReplay(s.ID, s.Name, last, lastMsg)
 		}
 	}()
+	n := 0
 	rapid.Check(t, func(rt *rapid.T) {
 		c := s.Gen(rt)
+		// self-check of the harness: a case must survive its JSON form, otherwise
+		// replay files would not reproduce what was evaluated
+		if n++; n <= 200 || n%64 == 0 {
+			if err := jsonStable(c); err != nil {
+				fmt.Fprintf(os.Stderr, "HARNESS ERROR %s/%s: %v\n", s.ID, s.Name, err)
+				os.Exit(2)
+			}
+		}
 		classes, nt := []string(nil), true
 		if s.Classify != nil {
 			classes, nt = s.Classify(c)
@@ -183,6 +192,22 @@ func Generated[C any](t *testing.T, s Spec[C]) {
 			rt.Fatalf("%s/%s: %v", s.ID, s.Name, err)
 		}
 	})
+}
+
+func jsonStable[C any](c C) error {
+	b1, err := json.Marshal(c)
+	if err != nil {
+		return fmt.Errorf("case does not marshal: %v", err)
+	}
+	var c2 C
+	if err := json.Unmarshal(b1, &c2); err != nil {
+		return fmt.Errorf("case does not unmarshal: %v", err)
+	}
+	b2, err := json.Marshal(c2)
+	if err != nil || string(b1) != string(b2) {
+		return fmt.Errorf("case changes through its JSON form:\n %s\n %s", b1, b2)
+	}
+	return nil
 }
 
 // One evaluates the oracle on a single directly constructed case (used by the
